@@ -111,3 +111,33 @@ Example c01_wild_witnesses_in_discipline_class :
   wf_b wl_hist = true /\ ri wl_r0 <> 0 /\ lib_mono_b (cfg_nofail wl_cfg) (fs_init (LExcl wl_r0)) wl_hist = false /\
   wf_b il_hist = true /\ ri il_r0 <> 0 /\ lib_mono_b (cfg_nofail il_cfg) (fs_init (LExcl il_r0)) il_hist = false.
 Proof. vm_compute. repeat split; try reflexivity; discriminate. Qed.
+
+(* discovery mode (no configured LIB, hold-until-LIB): the same two theorems.  Proofs/Fk/WildLibDisc.v *)
+Theorem c01_wild_discovery_discipline_partial : c01_wild_discovery_discipline_statement.
+Proof. exact c01_wild_discovery_discipline_proved. Qed.
+Print Assumptions c01_wild_discovery_discipline_partial.
+
+Theorem c01_wild_discovery_mono_partial : c01_wild_discovery_mono_statement.
+Proof. exact c01_wild_discovery_mono_proved. Qed.
+Print Assumptions c01_wild_discovery_mono_partial.
+
+(* non-vacuity, discovery: block 2 is held (its parent never arrives); block 3 declares 25, strictly between the
+   heights 20 and 30: SetLIB makes (3, 25) the LIB and NOTHING is delivered (the chain from block 3 down to the
+   LIB id 3 is empty; block 3 is never delivered nor announced); the first event, New 4, carries the LIB id 3;
+   re-feeds of 2 and 3 deliver nothing; block 6 (a sibling fork, lower than the head) and block 7 (declares 60,
+   above its height, but does not trigger) are stored silently *)
+Definition wd_cfg : config := mkCfg 0 false true 1 false (mkFilter true true true true) None.
+Definition wd_hist : list block :=
+  [ mkBlock 2 20 9 5; mkBlock 3 30 2 25; mkBlock 2 20 9 5; mkBlock 4 40 3 25; mkBlock 3 30 2 25; mkBlock 6 35 3 25;
+    mkBlock 5 50 4 40; mkBlock 2 20 9 5; mkBlock 7 51 6 60 ].
+
+Example c01_wild_discovery_nonvacuous :
+  c_hold wd_cfg = true /\ c_incl wd_cfg = false /\ wf_b wd_hist = true /\
+  lib_mono_b (cfg_nofail wd_cfg) (fs_init LNone) wd_hist = true /\
+  lib_anc_ok_b LNone wd_hist = false /\ disc_scope2_b wd_hist = false /\
+  map (fun x => (map (fun e => (estep e, bid (eblk e), ri (elib e))) (fst x), snd x)) (fk_run wd_cfg (fs_init LNone) wd_hist) =
+    [ ([], ROk); ([], ROk); ([], ROk); ([(SNew, 4, 3)], ROk); ([], ROk); ([], ROk);
+      ([(SNew, 5, 3); (SIrr, 4, 4)], ROk); ([], ROk); ([], ROk) ] /\
+  map (fun s => libref (db s)) (fk_states wd_cfg (fs_init LNone) wd_hist) =
+    [ mkR 0 0; mkR 3 25; mkR 3 25; mkR 3 25; mkR 3 25; mkR 3 25; mkR 4 40; mkR 4 40; mkR 4 40 ].
+Proof. vm_compute. repeat split; reflexivity. Qed.
